@@ -405,10 +405,13 @@ func (v *PacketDslFormattor) VisitMatchFieldDeclaration(ctx *gen.MatchFieldDecla
 
 		value := pairCtx.IDENTIFIER().GetText()
 		value = strings.TrimSpace(value) + ","
-		formattedDsl.WriteString(AddIndent4ln(fmt.Sprintf("%s : %s", key, value)))
+		// a comment behind the pair stays behind it, as it does for a field: on a line of its own the comment of the
+		// last pair would sit in front of the closing brace, where the next formatting run loses it
 		lineComment = strings.TrimRight(v.getHiddenRightAtSameLine(pairCtx.GetStop()), "\n")
 		if lineComment != "" {
-			formattedDsl.WriteString(AddIndent4ln(lineComment))
+			formattedDsl.WriteString(AddIndent4ln(fmt.Sprintf("%s : %s %s", key, value, strings.TrimSpace(lineComment))))
+		} else {
+			formattedDsl.WriteString(AddIndent4ln(fmt.Sprintf("%s : %s", key, value)))
 		}
 	}
 	formattedDsl.WriteString("}")
